@@ -176,6 +176,10 @@ class C20(Prop):
                                   "print(\"side output\\n\"); return true;", "return Count > 1 && Name ~= /e/;"] + ENDLESS)
                 if rng.random() < 0.3:
                     src = gen.Gen(rng, max_depth=2, use_fields=False).program(nstmts=rng.randint(1, 3), depth=1)
+                # values whose printed form contains what a format string would interpret
+                PERCENT = ['return "100%";', 'return "%d items";', 'return ["%s", "%v"];', 'return "50%% off %!";', 'return {"%x": "%q"};', 'return Name + "%s";']
+                if i < len(PERCENT):
+                    src = PERCENT[i]
                 sp, jp = os.path.join(tmp, "s%d.in" % i), os.path.join(tmp, "d%d.json" % i)
                 open(sp, "w").write(src)
                 use_json = rng.random() < 0.8
